@@ -61,3 +61,76 @@ Definition upgrade (s : session) (level : Z) : session := (fst s, Z.lor (snd s) 
 Definition upgrades (s : session) (levels : list Z) : session := List.fold_left upgrade levels s.
 (* a variant that stamps the upgrade instant (what a re-issue through the login path would do) *)
 Definition upgrade_restamp (now : Z) (s : session) (level : Z) : session := (now, Z.lor (snd s) level).
+
+(* ---------------------------------------------------------------------------------------------
+   every issuing path as one function *)
+(* the operator's configuration as the lifetime code could see it: the value the loader stored for
+   every numeric / duration knob (numbered in reflection order over AppConfigFile).  On the current
+   tree no issuing path reads any of them; the parameter is carried so that the theorems say so:
+   they hold for EVERY configuration. *)
+Definition config := list (N * Z).
+
+(* how the authenticated-at instant of the presented credential is derived (app.go checkAuth) *)
+Inductive cred :=
+| Cookie (iat : Z)          (* session cookie: the iat claim (kept by every level upgrade) *)
+| KmCert (not_before : Z)   (* keymaster-signed client certificate: its NotBefore *)
+| IpCert (not_before : Z)   (* IP-restricted certificate: its NotBefore *)
+| Basic.                    (* password on the request itself: authenticated now *)
+Definition issued_at (c : cred) (now0 : Z) : Z :=
+  match c with Cookie t => t | KmCert t => t | IpCert t => t | Basic => now0 end.
+
+(* the three compiled limits (regenerated: Consts.v, and the probe of the cloud-role template) *)
+Record limits := { maxc : Z; maxrole : Z; awslife : Z }.
+
+Inductive ipath := CertgenSSH | CertgenX509 | Role | Refresh | Aws.
+Definition is_certgen (p : ipath) : bool := match p with CertgenSSH | CertgenX509 => true | _ => false end.
+Definition path_limit (L : limits) (p : ipath) : Z :=
+  match p with CertgenSSH | CertgenX509 => maxc L | Role | Refresh => maxrole L | Aws => awslife L end.
+
+(* the duration each issuing path hands to its generator.  certgen: parse result / default, cap,
+   clamp to the authenticated-at instant; role and refresh: the constant (the duration form field is
+   documented but not read); cloud-role: the literal of the template.  None = refused. *)
+Definition effective_duration (cfg : config) (L : limits) (p : ipath) (req : option Z) (c : cred)
+           (now0 now1 : Z) : option Z :=
+  match p with
+  | CertgenSSH | CertgenX509 => handler_duration (maxc L) req (issued_at c now0) now1
+  | Role | Refresh => Some (maxrole L)
+  | Aws => Some (awslife L)
+  end.
+
+(* validity window in ns (SSH certificates have whole seconds) *)
+Definition effective_window (cfg : config) (L : limits) (p : ipath) (req : option Z) (c : cred)
+           (now0 now1 now2 : Z) : option (Z * Z) :=
+  match effective_duration cfg L p req c now0 now1 with
+  | None => None
+  | Some d => Some (match p with
+                    | CertgenSSH => let '(va, vb) := ssh_window now2 d in (va * NS, vb * NS)
+                    | _ => x509_window now2 d
+                    end)
+  end.
+
+Definition sane (L : limits) : Prop :=
+  0 < maxc L < two64 * NS / 4 /\ 0 < maxrole L < two64 * NS / 4 /\ 0 < awslife L < two64 * NS / 4.
+
+
+(* correspondence on observed certificates of any path: there is a clock reading in the recorded
+   interval [t0, t1] (seconds) for which the model yields the observed validity fields (seconds);
+   supersedes ssh_obs_ok (which is the /certgen/ + cookie instance) *)
+Definition window_obs_ok (cfg : config) (L : limits) (p : ipath) (req : option Z) (c : cred)
+           (t0_s t1_s : Z) (issued : bool) (va vb : Z) : bool :=
+  match effective_duration cfg L p req c (t0_s * NS) (t0_s * NS),
+        effective_duration cfg L p req c ((t1_s + 1) * NS) ((t1_s + 1) * NS) with
+  | None, _ | _, None => negb issued
+  | Some dhi, Some dlo =>
+      issued && (t0_s <=? va) && (va <=? t1_s) &&
+      (let lo := (va + Z.quot dlo NS) in let hi := (va + Z.quot dhi NS) in
+       (lo - 1 <=? vb) && (vb <=? hi + 1))
+  end.
+
+(* decoding of the harness's small codes *)
+Definition path_of (n : Z) : ipath :=
+  if n =? 0 then CertgenSSH else if n =? 1 then CertgenX509 else if n =? 2 then Role
+  else if n =? 3 then Refresh else Aws.
+Definition cred_of (kind t_s : Z) : cred :=
+  if kind =? 0 then Cookie (t_s * NS) else if kind =? 1 then KmCert (t_s * NS)
+  else if kind =? 2 then IpCert (t_s * NS) else Basic.
